@@ -112,7 +112,7 @@ theorem renderInlineP_forall (x : Ext) (o : ROpts) (P : Piece → Prop) (Q : Tok
   | nil => intro prev ps _ h; simp [renderInlineP] at h; subst h; simp
   | cons t rest ih =>
     intro prev ps hq h
-    simp only [renderInlineP] at h
+    simp only [renderInlineP, seqE] at h
     cases h1 : renderOne x o prev t rest.head? with
     | error e => rw [h1] at h; cases h
     | ok p1 =>
@@ -141,7 +141,7 @@ theorem renderP_forall (x : Ext) (o : ROpts) (P : Piece → Prop) (Q : Tok → P
   | nil => intro prev ps _ h; simp [renderP] at h; subst h; simp
   | cons t rest ih =>
     intro prev ps hq h
-    simp only [renderP] at h
+    simp only [renderP, seqE] at h
     have hrest : ∀ u ∈ visible rest, Q u := fun u hu => hq u (by simp [visible, hu])
     by_cases hin : (t.type == "inline") = true
     · simp only [hin, if_true] at h
